@@ -686,14 +686,20 @@ def g_good_val(rng):
     return g_good_str(rng)
 
 
-def check_roundtrip(mapping, tmpdir):
-    """save a parameters object holding `mapping`, load the file into fresh objects; -> violation dict or None"""
+def check_roundtrip(mapping, tmpdir, floats_as=None):
+    """save a parameters object holding `mapping`, load the file into fresh objects; -> violation dict or None.
+    floats_as='numpy.float64': every float is handed to the object as the numpy scalar holding the same bits (a float subclass: what
+    arithmetic on arrays, set_variable_values(array) and update_yourself produce); the file must still carry the float bit-exactly"""
     from xfab import parameters as P
     path = os.path.join(tmpdir, 'rt.par')
     p = P.parameters()
     for k, v in mapping.items():
-        p.set(k, v)
-    inp = {'mapping': [[k, jv(v)] for k, v in mapping.items()]}
+        if floats_as == 'numpy.float64' and type(v) is float:
+            import numpy
+            p.set(k, numpy.float64(v))
+        else:
+            p.set(k, v)
+    inp = {'mapping': [[k, jv(v)] for k, v in mapping.items()], 'floats_passed_as': floats_as or 'float'}
 
     def viol(what, obs, exp):
         d = {'fn': 'parameters.saveparameters/loadparameters', 'what': what, 'observed': obs, 'expected': exp, 'known_id': None}
@@ -888,7 +894,8 @@ def oracle(ctx, hints=()):
                     stats['roundtrip_values'][canon(v)[0]] += 1
                 ev += 1
                 nontriv += 1 if m else 0
-                v = check_roundtrip(m, tmpdir)
+                v = check_roundtrip(m, tmpdir) or (check_roundtrip(m, tmpdir, floats_as='numpy.float64')
+                                                   if any(type(x) is float for x in m.values()) else None)
                 if v and len(viol) < 20:
                     viol.append(v)
                 if it == 0:
@@ -959,7 +966,8 @@ def replay(payload):
     try:
         with quiet_logging():
             if 'mapping' in v:
-                w = check_roundtrip({k: unjv(x) for k, x in v['mapping']}, tmpdir)
+                w = check_roundtrip({k: unjv(x) for k, x in v['mapping']}, tmpdir,
+                                    floats_as=None if v.get('floats_passed_as', 'float') == 'float' else v['floats_passed_as'])
             elif 'text' in v:
                 w = check_load({k: unjv(x) for k, x in v['pre']}, v['text'], tmpdir)
             elif 'ops' in v:
